@@ -150,11 +150,27 @@ C07OK(c, k) ==
 
 Clean(e) == e.reply.kind = "msg" /\ e.faultkind = ""
 
-\* records allowed in by the clean exchanges of run k (the depth of the delegation in use is not logged:
-\* the most permissive depth is assumed, so this check is sound but weaker than the filter-level one)
+\* The depth of the delegation in use at an exchange is not logged.  It is derived: the resolver asks a server because
+\* an NS set it holds (local zones, initial cache, inserted before this exchange - hook H2 numbers the cache
+\* operations) names that server's host for a zone enclosing the question name; it uses the closest such set.  With no
+\* address-to-host map (or no such set) the most permissive depth 0 is assumed.
+HeldNS(c, k, e) ==
+    { [name |-> x.name, target |-> x.target] : x \in { y \in UNION { z.recs : z \in ZonesOf(c) } : y.type = "NS" /\ ~y.wild } }
+    \cup { [name |-> x.name, target |-> x.target] : x \in { y \in Range(c.cache) : y.type = "NS" } }
+    \cup UNION { { [name |-> x.name, target |-> x.target]
+                   : x \in { y \in Range(c.runs[j].cache_events) : y.ev = "insert" /\ y.type = "NS" } } : j \in 1..(k - 1) }
+    \cup { [name |-> c.runs[k].cache_events[i].name, target |-> c.runs[k].cache_events[i].target]
+           : i \in { j \in DOMAIN c.runs[k].cache_events :
+                       j <= e.cache_seq /\ c.runs[k].cache_events[j].ev = "insert" /\ c.runs[k].cache_events[j].type = "NS" } }
+
+DepthInUse(c, k, e) ==
+    LET hosts == { ha.host : ha \in { x \in Range(c.hostaddrs) : x.addr = e.addr } }
+        ds == { Labels(ns.name) : ns \in { x \in HeldNS(c, k, e) : IsSubdomain(e.qname, x.name) /\ x.target \in hosts } }
+    IN IF ds = {} THEN 0 ELSE CHOOSE d \in ds : \A d2 \in ds : d2 <= d
+
 AllowedIn(c, k) ==
     UNION { LET e == c.runs[k].exchanges[i] IN
-            IF Clean(e) THEN { Key(x) : x \in Relevant([name |-> e.qname, type |-> e.qtype], 0,
+            IF Clean(e) THEN { Key(x) : x \in Relevant([name |-> e.qname, type |-> e.qtype], DepthInUse(c, k, e),
                                                        [rcode |-> e.reply.rcode, answers |-> e.reply.answers,
                                                         authority |-> e.reply.authority, additional |-> e.reply.additional]) }
             ELSE {}
